@@ -58,7 +58,8 @@ def nsOfJson (j : Json) : Except String Namespace := do
            pure { name := ← jstr a "name", params := ← listOf fieldOfJson a "params" }) j "annotation_types",
          types := ← listOf typeOfJson j "types",
          aliases := ← listOf (fun a => do pure { name := ← jstr a "name", ty := ← tyOfJson (← jobj a "ty") }) j "aliases",
-         routes := ← listOf (fun r => do pure { name := ← jstr r "name", version := ← jnat r "version" }) j "routes" }
+         routes := ← listOf (fun r => do pure { name := ← jstr r "name", version := ← jnat r "version" }) j "routes",
+         tsRouteAttr := (jbool j "ts_route_attr").toOption.getD false }
 
 def apiOfJson (j : Json) : Except String Api := do
   pure { namespaces := ← listOf nsOfJson j "namespaces" }
